@@ -372,6 +372,14 @@ func genCommandLine(g *G) Step {
 
 func init() {
 	ops = append(ops, opGen{"cmdline", always, genCommandLine})
+	ops = append(ops, opGen{"switch-c-meta", hasCommit, func(g *G) Step {
+		n := g.Pick(metaNames, "metaBranch")
+		if strings.ContainsAny(n, "/\\") || strings.HasPrefix(n, "-") {
+			n = "trail "
+		}
+		return goit("switch", "-c", n)
+	}})
+	ops = append(ops, opGen{"commit-change", hasCommit, func(g *G) Step { return goit("commit", "-m", g.Message(true)) }})
 	ops = append(ops, opGen{"write-meta", always, func(g *G) Step {
 		p := g.Pick([]string{"a(", "a[", "a*", "a+", "a?", "m(/x", "m[/y", "a{2}", "^a", "a$", "a|b"}, "metaFile")
 		if !g.pathUsable(p) {
@@ -382,4 +390,4 @@ func init() {
 }
 
 var robustWeights = Weights{"cmdline": 55, "write-new": 8, "write-meta": 3, "modify": 4, "remove-file": 3, "rmdir": 2, "add": 8, "commit": 6, "rm": 2,
-	"branch": 2, "branch-r": 2, "branch-d": 1, "switch-c": 2, "switch": 1, "reset": 2, "add-dot": 1}
+	"branch": 2, "branch-r": 2, "branch-d": 1, "switch-c": 2, "switch": 1, "reset": 3, "add-dot": 1, "switch-c-meta": 2}
